@@ -52,6 +52,12 @@ def terminate(mode):
         sys.exit(1)
     if mode == "exit(str)":
         sys.exit("giving up")
+    if mode == "exit('')":
+        sys.exit("")
+    if mode == "exit([])":
+        sys.exit([])
+    if mode == "exit(2)":
+        sys.exit(2)
     if mode == "ValueError":
         raise ValueError("boom")
     if mode == "KeyboardInterrupt":
